@@ -62,6 +62,86 @@ func (c *Ctx) callees(fi *load.FuncInfo) []*load.FuncInfo {
 			out = append(out, cal)
 		}
 	}
+	// functions held by a package-level table (a map, slice or struct of function values) that fi mentions
+	for _, cal := range c.tableCallees(fi) {
+		if !seen[cal] {
+			seen[cal] = true
+			out = append(out, cal)
+		}
+	}
+	return out
+}
+
+// funcTables maps every package-level variable of the module whose initializer mentions module functions (as function
+// names, method expressions or method values) to those functions: whoever gets at the variable can call them.
+func (c *Ctx) funcTables() map[*types.Var][]*load.FuncInfo {
+	if c.tables != nil {
+		return c.tables
+	}
+	c.tables = map[*types.Var][]*load.FuncInfo{}
+	for _, pkg := range c.P.Pkgs {
+		info := pkg.TypesInfo
+		for _, f := range pkg.Syntax {
+			for _, d := range f.Decls {
+				gd, ok := d.(*ast.GenDecl)
+				if !ok || gd.Tok != token.VAR {
+					continue
+				}
+				for _, sp := range gd.Specs {
+					vs, ok := sp.(*ast.ValueSpec)
+					if !ok {
+						continue
+					}
+					for i, name := range vs.Names {
+						if i >= len(vs.Values) {
+							continue
+						}
+						if _, isLit := vs.Values[i].(*ast.FuncLit); isLit {
+							continue // a function variable: VarFunc
+						}
+						v, _ := info.Defs[name].(*types.Var)
+						if v == nil {
+							continue
+						}
+						seen := map[*load.FuncInfo]bool{}
+						ast.Inspect(vs.Values[i], func(n ast.Node) bool {
+							if _, isLit := n.(*ast.FuncLit); isLit {
+								return false
+							}
+							if id, ok := n.(*ast.Ident); ok {
+								if fn, ok := info.Uses[id].(*types.Func); ok {
+									if fi := c.P.FuncOf(fn); fi != nil && !seen[fi] {
+										seen[fi] = true
+										c.tables[v] = append(c.tables[v], fi)
+									}
+								}
+							}
+							return true
+						})
+					}
+				}
+			}
+		}
+	}
+	return c.tables
+}
+
+// tableCallees returns the functions of the tables fi mentions.
+func (c *Ctx) tableCallees(fi *load.FuncInfo) []*load.FuncInfo {
+	tabs := c.funcTables()
+	if len(tabs) == 0 || fi == nil || fi.Body() == nil {
+		return nil
+	}
+	var out []*load.FuncInfo
+	info := fi.Info()
+	ast.Inspect(fi.Body(), func(n ast.Node) bool {
+		if id, ok := n.(*ast.Ident); ok {
+			if v, ok := info.Uses[id].(*types.Var); ok {
+				out = append(out, tabs[v]...)
+			}
+		}
+		return true
+	})
 	return out
 }
 
